@@ -24,6 +24,7 @@ import (
 	"strconv"
 	"strings"
 	"time"
+	"unsafe"
 
 	"github.com/bradenaw/juniper/iterator"
 	"github.com/bradenaw/juniper/stream"
@@ -207,6 +208,46 @@ func items(n int) []int {
 	return a
 }
 
+// itemsSpare is items(n) with `spare` unused elements of capacity behind it (an append to a[:0] or to
+// a itself then stays inside the caller's array).
+func itemsSpare(n, spare int) []int {
+	a := make([]int, n, n+spare)
+	for i := range a {
+		a[i] = base + i
+	}
+	return a
+}
+
+// inputUntouched: SampleSlice / RSampleSlice document no in-place and no aliasing effect ("picks k
+// items ... from a", a reservoir of O(k) space): after the call the caller's slice holds what it held, in
+// the same order, and the sample is storage of its own (writing to it must not write to the input). The
+// same reading as c19's "a read-only helper modified its input" / "Clone aliases".
+func inputUntouched(name string, in, out []int, k int) (kind, what string) {
+	full := in[:cap(in)]
+	for i := range in {
+		if in[i] != base+i {
+			return "xrand-sample-input-modified", fmt.Sprintf("%s(a, %d) with len(a) = %d reordered the caller's slice: a[%d] is item %d afterwards (a = %v)",
+				name, k, len(in), i, in[i]-base, trunc(positions(in)))
+		}
+	}
+	for i := len(in); i < len(full); i++ {
+		if full[i] != 0 {
+			return "xrand-sample-input-modified", fmt.Sprintf("%s(a, %d) with len(a) = %d, cap(a) = %d wrote %d into a's spare capacity at %d",
+				name, k, len(in), cap(in), full[i], i)
+		}
+	}
+	if len(out) > 0 && len(full) > 0 {
+		o := out[:cap(out)]
+		lo, hi := uintptr(unsafe.Pointer(&full[0])), uintptr(unsafe.Pointer(&full[len(full)-1]))
+		olo, ohi := uintptr(unsafe.Pointer(&o[0])), uintptr(unsafe.Pointer(&o[len(o)-1]))
+		if olo <= hi && lo <= ohi {
+			return "xrand-sample-aliases-input", fmt.Sprintf("%s(a, %d) with len(a) = %d returned a slice that shares storage with a (writing to the sample writes to the input)",
+				name, k, len(in))
+		}
+	}
+	return "", ""
+}
+
 func positions(out []int) []int {
 	p := make([]int, len(out))
 	for i, v := range out {
@@ -337,6 +378,7 @@ func monitor(c Case) (kind, what string, params P) {
 		}
 	case "rsample", "rsampleslice", "rsampleiter", "rsamplestream":
 		var out []int
+		var sliceKind, sliceWhat string
 		src := c.source(false)
 		var r *rand.Rand
 		if len(c.Craft) == 0 {
@@ -351,11 +393,15 @@ func monitor(c Case) (kind, what string, params P) {
 					out = xrand.VerifRSample(src, c.N, c.K)
 				}
 			case "rsampleslice":
+				in := itemsSpare(c.N, c.N%3)
+				var o []int
 				if r != nil {
-					out = positions(xrand.RSampleSlice(r, items(c.N), c.K))
+					o = xrand.RSampleSlice(r, in, c.K)
 				} else {
-					out = positions(xrand.VerifRSampleSlice(src, items(c.N), c.K))
+					o = xrand.VerifRSampleSlice(src, in, c.K)
 				}
+				out = positions(o)
+				sliceKind, sliceWhat = inputUntouched("RSampleSlice", in, o, c.K)
 			case "rsampleiter":
 				if r != nil {
 					out = positions(xrand.RSampleIterator(r, iterator.Slice(items(c.N)), c.K))
@@ -385,6 +431,9 @@ func monitor(c Case) (kind, what string, params P) {
 		}
 		if ok, why := distinctInRange(out, c.N); !ok {
 			return "xrand-sample-distinct", fmt.Sprintf("%s: returned positions %v: %s", c.Key(), out, why), pr
+		}
+		if sliceKind != "" {
+			return sliceKind, c.Key() + ": " + sliceWhat, pr
 		}
 	case "shuffle":
 		a := append([]int{}, c.List...)
@@ -430,8 +479,13 @@ func monitorGlobals(n, k int) (kind, what string, params P) {
 	if k, w, p := check("Sample", xrand.Sample(n, k)); k != "" {
 		return k, w, p
 	}
-	if k, w, p := check("SampleSlice", positions(xrand.SampleSlice(items(n), k))); k != "" {
+	in := itemsSpare(n, k%3)
+	ss := xrand.SampleSlice(in, k)
+	if k, w, p := check("SampleSlice", positions(ss)); k != "" {
 		return k, w, p
+	}
+	if kd, w := inputUntouched("SampleSlice", in, ss, k); kd != "" {
+		return kd, w, pr
 	}
 	if k, w, p := check("SampleIterator", positions(xrand.SampleIterator(iterator.Slice(items(n)), k))); k != "" {
 		return k, w, p
@@ -935,6 +989,17 @@ func main() {
 				os.Exit(1)
 			}
 			fmt.Println("monitor: uniform within the threshold", r2.Extra)
+			return
+		}
+		if c.Fn == "globals" { // the package-level API on (n, k): monitorGlobals
+			fmt.Printf("replay: package-level Sample / SampleSlice / SampleIterator / SampleStream / Shuffle with n=%d k=%d (20 repetitions)\n", c.N, c.K)
+			for rep := 0; rep < 20; rep++ {
+				if kd, w, _ := monitorGlobals(c.N, c.K); kd != "" {
+					fmt.Println("monitor:", kd, w)
+					os.Exit(1)
+				}
+			}
+			fmt.Println("monitor: no clause violated")
 			return
 		}
 		if strings.HasPrefix(c.Fn, "coverage:") {
